@@ -2,7 +2,7 @@
 from props import relcorr
 
 MODEL_DEPS = ['CheckLib', 'Relational']
-KERNELS = ('SwitchEdge', 'CheckIdsEdge', 'ids_maker', 'id_maker', 'FilterEdge', 'GroupEdge', 'GroupMapping', 'JoinMapping', 'SplitMapping')
+KERNELS = ('SwitchEdge', 'CheckIdsEdge', 'ids_maker', 'id_maker', 'FilterEdge', 'GroupEdge', 'GroupMapping', 'JoinMapping', 'SplitMapping', 'Merge', 'Filter', '_among', '_not_among', '_sorted_keys', 'reverse_func', 'slice_dict')
 TRUSTED = ['Coq 8.16.1 kernel; vm_compute in case shards and Examples',
            'hand-written Model/Relational.v (from the evaluate() bodies), tied by the correspondence on generated id sets',
            'tools/translate.py: SwitchEdge generators, CheckIdsEdge._evaluate, ids_maker / id_maker (whole-body patterns)']
